@@ -206,6 +206,9 @@ struct State {
     ext_connected: Arc<AtomicUsize>,
     /// std clients whose read timed out: neither acknowledged nor closed
     ext_stuck: Arc<Mutex<Vec<usize>>>,
+    /// descriptors of the std clients (in the order the thread reads them) and how many it has read
+    ext_fds: Arc<Mutex<Vec<RawFd>>>,
+    ext_pos: Arc<AtomicUsize>,
     /// the program ended with connections that a dropped incoming() stream had closed
     finished_early: Cell<bool>,
     used_drop: Cell<bool>,
@@ -469,6 +472,8 @@ fn run_l<L: Lis>(p: &AcceptProg, lim: &Limits) -> Outcome {
         connected: Cell::new(0),
         ext_connected: Arc::new(AtomicUsize::new(0)),
         ext_stuck: Arc::new(Mutex::new(Vec::new())),
+        ext_fds: Arc::new(Mutex::new(Vec::new())),
+        ext_pos: Arc::new(AtomicUsize::new(0)),
         finished_early: Cell::new(false),
         used_drop: Cell::new(false),
         used_cancel: Cell::new(false),
@@ -523,6 +528,8 @@ fn run_l<L: Lis>(p: &AcceptProg, lim: &Limits) -> Outcome {
                 let closed = st.ext_closed.clone();
                 let connected = st.ext_connected.clone();
                 let stuck = st.ext_stuck.clone();
+                let fds = st.ext_fds.clone();
+                let pos = st.ext_pos.clone();
                 let a = addr.clone();
                 *thread.borrow_mut() = Some(std::thread::spawn(move || {
                     // connect everything first: the connections pile up in the backlog
@@ -549,6 +556,10 @@ fn run_l<L: Lis>(p: &AcceptProg, lim: &Limits) -> Outcome {
                             }
                         }
                     }
+                    *fds.lock().unwrap() = socks.iter().map(|(_, s)| match s {
+                        StdSock::Tcp(t) => t.as_raw_fd(),
+                        StdSock::Unix(t) => t.as_raw_fd(),
+                    }).collect();
                     for (i, s) in socks.iter_mut() {
                         let mut b = [0u8; 1];
                         match s.read(&mut b) {
@@ -558,6 +569,7 @@ fn run_l<L: Lis>(p: &AcceptProg, lim: &Limits) -> Outcome {
                             }
                             _ => closed.lock().unwrap().push(*i),
                         }
+                        pos.fetch_add(1, Ordering::SeqCst);
                         done.fetch_add(1, Ordering::SeqCst);
                     }
                 }));
@@ -612,6 +624,19 @@ fn run_l<L: Lis>(p: &AcceptProg, lim: &Limits) -> Outcome {
                 });
             }
             if st.connected.get() + st.ext_connected.load(Ordering::SeqCst) >= st.n {
+                // The std client thread may simply not have run yet: a connection whose client socket
+                // has an acknowledgement or a hang-up waiting is not leaked.
+                let fds = st.ext_fds.lock().unwrap();
+                let pos = st.ext_pos.load(Ordering::SeqCst);
+                if st.ext_connected.load(Ordering::SeqCst) > 0
+                    && (fds.is_empty()
+                        || fds.iter().skip(pos).all(|fd| {
+                            poll_fd(*fd, libc::POLLIN | POLLRDHUP) & (libc::POLLIN | POLLRDHUP | libc::POLLHUP | libc::POLLERR) != 0
+                        }))
+                {
+                    return Stall::KeepWaiting;
+                }
+                drop(fds);
                 return Stall::Violation(Fail {
                     sig: format!("C14/accept/leaked/{}/{}", st.tag, st.mode()),
                     what: format!(
